@@ -11,7 +11,8 @@ PRELUDE = ("Require Import DTS.Model.Avg.\nFrom Coq Require Import String.\nLoca
            "  existsb (fun md => String.eqb (fst md) (fst nd) && eqsl (snd md) (snd nd)) impl.\n"
            "Definition ok (dbl : bool) (m : mode) (s : selection) (ci : bool) (impl : list (string * list string)) : Z :=\n"
            "  if negb (forallb (has impl) (outputs dbl m s ci)) then 1\n"
-           "  else if existsb (fun md => mem \"mc\" (snd md)) impl then 2 else 0.\n")
+           "  else if existsb (fun md => mem \"mc\" (snd md)) impl then 2\n"
+           "  else if negb (forallb (dims_ok m s) impl) then 3 else 0.\n")
 MODES = {"Avg1": dict(ci_avg_time_flag1=True), "Avg2": dict(ci_avg_time_flag2=True), "AvgX1": dict(ci_avg_x_flag1=True), "AvgX2": dict(ci_avg_x_flag2=True)}
 
 
@@ -32,12 +33,21 @@ def selections(case, mode, rng):
         if nt >= 2:
             a = int(rng.integers(0, nt - 1)); b = int(rng.integers(a + 1, nt))
             t = ds.time.values
-            return [("none", "NoSel", {}, None), ("time", "TimeSel", {"ci_avg_time_sel": slice(t[a], t[b])}, {"ci_avg_time_isel": list(range(a, b + 1))})]
+            out = [("none", "NoSel", {}, None), ("time", "TimeSel", {"ci_avg_time_sel": slice(t[a], t[b])}, {"ci_avg_time_isel": list(range(a, b + 1))})]
+            if nt >= 7:  # an unevenly spaced list of positions (whose end points alone look evenly spaced) against the labels of the same elements
+                pos = [0, 2, 3, 6] if rng.random() < 0.5 else sorted(rng.choice(nt, size=4, replace=False).tolist())
+                out.append(("time-uneven", "TimeSel", {"ci_avg_time_sel": t[pos]}, {"ci_avg_time_isel": pos}))
+            return out
         return [("none", "NoSel", {}, None)]
     nx = ds.x.size
     a = int(rng.integers(0, nx - 3)); b = int(rng.integers(a + 1, nx))
     x = ds.x.values
-    return [("none", "NoSel", {}, None), ("x", "XSel", {"ci_avg_x_sel": slice(float(x[a]), float(x[b]))}, {"ci_avg_x_isel": list(range(a, b + 1))})]
+    out = [("none", "NoSel", {}, None), ("x", "XSel", {"ci_avg_x_sel": slice(float(x[a]), float(x[b]))}, {"ci_avg_x_isel": list(range(a, b + 1))})]
+    if nx >= 8:
+        o = int(rng.integers(0, nx - 6))
+        pos = [o, o + 2, o + 3, o + 6] if rng.random() < 0.5 else sorted(rng.choice(nx, size=5, replace=False).tolist())
+        out.append(("x-uneven", "XSel", {"ci_avg_x_sel": x[pos]}, {"ci_avg_x_isel": pos}))
+    return out
 
 
 def check_values(ctx, case, out, avg, mode, selname, selkw, p):
@@ -48,6 +58,23 @@ def check_values(ctx, case, out, avg, mode, selname, selkw, p):
     suf = {"Avg1": "avg1", "Avg2": "avg2", "AvgX1": "avgx1", "AvgX2": "avgx2"}[mode]
     dim_avg = "time" if mode in ("Avg1", "Avg2") else "x"
     tag = f"{mode}:{selname}:{'de' if f.double else 'se'}"
+    # every returned array really has the shape its dimensions declare (a lazily evaluated block may return something else)
+    for k in avg.data_vars:
+        want_shape = tuple(avg.sizes[d] for d in avg[k].dims)
+        got_shape = np.asarray(avg[k].values).shape
+        if got_shape != want_shape:
+            ctx.violation(f"shape-differs-from-declared-dims:{tag}:{k if k.startswith('tmpf') else k[:4] + '*'}", f"{k} is declared with dims {avg[k].dims} = {want_shape} but its data have shape {got_shape}", p)
+    # confidence bounds of the unweighted modes are the percentiles of the kept Monte Carlo set over (mc, averaged dimension)
+    if avg.CI.size and suf in ("avg1", "avgx1"):
+        for lab in labels:
+            sname, cname = f"{lab}_mc_set", f"{lab}_mc_{suf}"
+            if sname in avg and cname in avg:
+                st_ = avg[sname]
+                ddim = [d for d in st_.dims if d.startswith(dim_avg)][0]
+                want = np.percentile(st_.transpose("mc", ddim, ...).values, q=avg.CI.values, axis=(0, 1))
+                got = np.asarray(avg[cname].values)
+                if got.shape != want.shape or not np.allclose(got, want, rtol=1e-9, atol=1e-9, equal_nan=True):
+                    ctx.violation(f"ci-not-percentiles-over-mc-and-{dim_avg}:{tag}:{lab}", f"{cname} is not the percentiles of {sname} over (mc, {ddim})", p)
     for lab in labels:
         src = out[lab] if lab != "tmpw" else None
         if lab == "tmpw":
@@ -122,16 +149,16 @@ def run_params(ctx, plist):
     codes = core.run_cases(ctx, "dims", PRELUDE, exprs, shard=40)
     for c, rec in zip(codes, meta):
         if c:
-            ctx.violation(f"dims:{'output-missing-or-wrong-dims' if c == 1 else 'indexed-by-mc'}:{rec['mode']}:{'de' if rec['double'] else 'se'}",
-                          "an averaged output is missing / has other dimensions than the model" if c == 1 else "an output is indexed by the Monte Carlo sample dimension", rec)
+            ctx.violation(f"dims:{ {1: 'output-missing-or-wrong-dims', 2: 'indexed-by-mc'}.get(c, 'indexed-by-averaged-dim') }:{rec['mode']}:{'de' if rec['double'] else 'se'}",
+                          {1: "an averaged output is missing / has other dimensions than the model", 2: "an output is indexed by the Monte Carlo sample dimension"}.get(c, "an averaged output is indexed by another dimension than the one that was not averaged (plus CI)"), rec)
 
 
 def gen_params(ctx):
     rng = ctx.rng("c09")
     out = []
-    for k in range(2 if ctx.quick else 12):
+    for k in range(4 if ctx.quick else 12):
         double = bool(k % 2)
-        out.append(calib.random_params(rng, double, quick=True, noise=0.005, nmatch=0, nta=int(rng.choice([0, 1])) if k >= 2 else 0, nx=int(rng.integers(12, 16)), nt=3, var_mode="float"))
+        out.append(calib.random_params(rng, double, quick=True, noise=0.005, nmatch=0, nta=int(rng.choice([0, 1])) if k >= 2 else 0, nx=int(rng.integers(12, 16)), nt=3 if k % 4 < 2 else 7, var_mode="float"))
     return out
 
 
